@@ -88,6 +88,7 @@ class FakeAMQP:
         self.acked_ids: list = []
         self.precondition_failed: list = []  # (client, channel, delivery tag, action): double settlements
         self.keep_log = True
+        self.requeued_ids: list = []  # message ids the server saw returned (reject / nack with requeue), in order
 
     def now(self):
         return time.time()
@@ -264,6 +265,7 @@ class Chan:
                 srv.acked_ids.append(m.props.message_id)
             elif requeue:
                 m.redelivered = True
+                srv.requeued_ids.append(m.props.message_id)
                 if q is not None:
                     q.requeue(m, srv.requeue_original_position)
             else:
